@@ -19,6 +19,10 @@ STYLES = {
     "chaos": ["raw"] * 5 + ["legal"] * 3 + ["illegal"] * 2,
     "legal": ["legal"],
     "late_illegal": ["legal"] * 12 + ["illegal"],
+    # 'solve' asks the reference model for a constructive move (model.solve_action); it falls back to
+    # 'legal' for environments whose model has no solver
+    "solve": ["solve"],
+    "solveish": ["solve"] * 8 + ["legal", "raw"],
 }
 
 
@@ -28,7 +32,7 @@ def keys():
 
 
 @st.composite
-def plans(draw, max_len=60, styles=("legalish", "survive", "chaos", "legal", "late_illegal"), min_len=1):
+def plans(draw, max_len=60, styles=("legalish", "survive", "chaos", "legal", "late_illegal", "solveish"), min_len=1):
     style = draw(st.sampled_from(list(styles)))
     pool = STYLES[style]
     n = draw(st.integers(min_len, max_len))
@@ -72,8 +76,26 @@ class Monitor:
     def on_end(self, rec: Recorder) -> None: ...
 
 
+def solve_fn_for(b: envs.Bundle):
+    """model.solve_action of the env's reference model, if it has one."""
+    try:
+        from vf.models import base
+
+        m = base.get_model(b)
+    except Exception:  # noqa: BLE001 - model-free properties must not depend on model modules
+        return None
+    return getattr(m, "solve_action", None)
+
+
+def solved_action(b: envs.Bundle, solve_fn, hst, r):
+    if solve_fn is None:
+        return None
+    a = solve_fn(hst, r)
+    return None if a is None else b.to_action(a)
+
+
 def run_plan(b: envs.Bundle, rec: Recorder, plan: dict, mon: Monitor, after_last: int = 0,
-             legal_fn=None, stop_at_last: bool = True):
+             legal_fn=None, stop_at_last: bool = True, solve_fn=None):
     """Play a plan.  `legal_fn(state_host, ts_host) -> bool mask` replaces the env's own mask as the
     notion of legality when given.  After the first LAST, `after_last` further raw steps are
     issued on the terminal state (C03: stepping after LAST).  Returns summary dict."""
@@ -94,7 +116,9 @@ def run_plan(b: envs.Bundle, rec: Recorder, plan: dict, mon: Monitor, after_last
         mask = None
         if legal_fn is not None and not is_after:
             mask = np.asarray(legal_fn(hst, hts)).astype(bool)
-        a = b.pick_action(st_, ts, mode, r, mask=mask)
+        a = solved_action(b, solve_fn, hst, r) if (mode == "solve" and not is_after) else None
+        if a is None:
+            a = b.pick_action(st_, ts, mode, r, mask=mask)
         pmask = b.mask(hts) if mask is None else mask
         rec.actions.append(np.asarray(a))
         nst, nts = b.step(st_, a)
